@@ -431,6 +431,10 @@ class Machine:
         try:
             return get_sort(decl).coerce(v)
         except EngineError:
+            for h in getattr(self.world, "coerce_hooks", []):
+                alt = h(self, v, decl)
+                if alt is not None:
+                    return alt
             return v
 
     def unpack(self, v: V, n: int) -> list[V]:
@@ -1323,6 +1327,10 @@ class Machine:
         # rich comparison through the contracted dunder, with CPython's reflected fallback
         name, refl = {ast.Lt: ("__lt__", "__gt__"), ast.LtE: ("__le__", "__ge__"),
                       ast.Gt: ("__gt__", "__lt__"), ast.GtE: ("__ge__", "__le__")}[type(op)]
+        for h in getattr(self.world, "order_hooks", []):
+            t = h(self, op, a, b)
+            if t is not None:
+                return t
         r = self.call_dunder(a, name, [b])
         if r is None:
             r = self.call_dunder(b, refl, [a])
